@@ -9,7 +9,8 @@
 //!               has a full UTXO index
 //!   the first transaction of every block is its coinbase: n_in = 1, input (0, 0xffffffff)
 //!   ids are abstract transaction numbers (the harness maps them to real txids):
-//!     1+j prefix split tx j, 100000+h prefix coinbase of height h,
+//!     1+j prefix split tx j, 90+k prefix reveal tx k (envelope below the first inscription
+//!     height: no configuration may treat it as an inscription), 100000+h prefix coinbase of height h,
 //!     500000+b coinbase of the b-th generated block, 1000000+n n-th generated tx
 //!   flags: bit0 input 0 carries an inscription envelope, bit1 last output is an OP_RETURN
 //!          (ignored by the model: the value layer does not look at them)
@@ -31,7 +32,11 @@ const COIN: u64 = 100_000_000;
 const SUBSIDY: u64 = 50 * COIN;
 /// first inscription height of signet (crates: src/chain.rs); read back from the index below
 const SIGNET_FIH: usize = 112_402;
-const N_SPLIT: usize = 32;
+const N_SPLIT: usize = 64;
+/// reveal transactions with an inscription envelope BELOW the first inscription height
+const N_REVEAL: usize = 6;
+const REVEAL_H0: usize = 70;
+const POOL_CB: std::ops::Range<usize> = 80..120;
 
 /// (name, flags, has a full UTXO index on signet)
 const CONFIGS: [(&str, &[&str]); 6] = [
@@ -123,7 +128,7 @@ fn read_case(line: &Line) -> Case {
 
 /// values of the outputs of the deterministic prefix (see `build_prefix`)
 fn split_values(j: usize) -> [u64; 4] {
-  let small = [0u64, 1, 546 + j as u64];
+  let small = [0u64, 1 + j as u64, 546 + j as u64];
   [small[0], small[1], small[2], SUBSIDY - small[0] - small[1] - small[2]]
 }
 
@@ -134,8 +139,11 @@ fn old_pool() -> Vec<(u64, u32, u64)> {
       v.push((1 + j as u64, k as u32, *val));
     }
   }
+  for k in 0..N_REVEAL {
+    v.push((90 + k as u64, 0, SUBSIDY));
+  }
   // untouched prefix coinbases
-  for h in (N_SPLIT + 2)..(N_SPLIT + 2 + 40) {
+  for h in POOL_CB {
     v.push((100_000 + h as u64, 0, SUBSIDY));
   }
   v
@@ -146,19 +154,26 @@ pub fn gen(rng: &mut Rng, tier: &str) -> Vec<Line> {
   let mut v = Vec::new();
   for i in 0..n {
     let scen = if i % 3 == 2 { 0 } else { 1 };
-    v.push(write_case(&gen_case(rng, scen)));
+    v.push(write_case(&gen_case(rng, scen, false)));
+  }
+  // blocks with 11..40 fetched inputs (one transaction with many untracked inputs, then many
+  // transactions with one each): batching / ordering of the fetcher's answers
+  for _ in 0..(if tier == "thorough" { 60 } else { 6 }) {
+    v.push(write_case(&gen_case(rng, 1, true)));
   }
   v
 }
 
-fn gen_case(rng: &mut Rng, scen: u64) -> Case {
+fn gen_case(rng: &mut Rng, scen: u64, many: bool) -> Case {
   // spendable outputs: (id, vout, value, is_old)
   let mut avail: Vec<(u64, u32, u64, bool)> = Vec::new();
   let mut used_old: Vec<(u64, u32, u64)> = Vec::new();
   if scen == 1 {
     let mut pool = old_pool();
     // a random subset, zero-value outputs kept with high probability
-    pool.retain(|(_, _, val)| if *val == 0 { rng.chance(1, 3) } else { rng.chance(1, 6) });
+    if !many {
+      pool.retain(|(_, _, val)| if *val == 0 { rng.chance(1, 3) } else { rng.chance(1, 12) });
+    }
     for (id, vout, val) in pool {
       avail.push((id, vout, val, true));
     }
@@ -169,18 +184,34 @@ fn gen_case(rng: &mut Rng, scen: u64) -> Case {
   for b in 0..nblocks {
     let mut txs: Vec<ATx> = Vec::new();
     let mut fees = 0u64;
-    let ntx = if avail.is_empty() { 0 } else { rng.below(5) as usize };
+    let ntx = if avail.is_empty() {
+      0
+    } else if many && b == 1 {
+      rng.range(11, 40) as usize
+    } else if many && b == 0 {
+      1
+    } else {
+      rng.below(5) as usize
+    };
     // outputs created in this block: spendable by later transactions of the same block
     for _ in 0..ntx {
       if avail.is_empty() {
         break;
       }
-      let nin = (rng.range(1, 3) as usize).min(avail.len());
+      let nin = if many && b == 0 { rng.range(11, 40) as usize } else if many && b == 1 { 1 } else { rng.range(1, 3) as usize }.min(avail.len());
+      let old_only = many && b < 2;
       let mut ins = Vec::new();
       let mut total = 0u64;
       for _ in 0..nin {
         // prefer old outputs and same-block outputs
-        let k = rng.below(avail.len() as u64) as usize;
+        let mut k = rng.below(avail.len() as u64) as usize;
+        if old_only {
+          // distinct-valued untracked outputs
+          let cands: Vec<usize> = (0..avail.len()).filter(|i| avail[*i].3 && avail[*i].2 != SUBSIDY && avail[*i].2 != 0).collect();
+          if !cands.is_empty() {
+            k = *rng.pick(&cands);
+          }
+        }
         let (id, vout, val, is_old) = avail.swap_remove(k);
         if is_old {
           used_old.push((id, vout, val));
@@ -292,11 +323,59 @@ fn pop_block(core: &mockcore::Handle) {
   }
 }
 
-fn cache_dir() -> PathBuf {
+fn cache_root() -> PathBuf {
   // <target>/debug/hx-config -> <target>/hx-config-cache
   let exe = std::env::current_exe().unwrap();
   let target = exe.parent().unwrap().parent().unwrap().to_path_buf();
-  let d = target.join("hx-config-cache").join("v1");
+  let d = target.join("hx-config-cache");
+  std::fs::create_dir_all(&d).unwrap();
+  d
+}
+
+fn hash_tree(p: &Path, h: &mut u64) {
+  if p.is_dir() {
+    let mut es: Vec<PathBuf> = std::fs::read_dir(p).unwrap().map(|e| e.unwrap().path()).collect();
+    es.sort();
+    for e in es {
+      hash_tree(&e, h);
+    }
+  } else if let Ok(bytes) = std::fs::read(p) {
+    for b in p.file_name().unwrap().to_string_lossy().bytes().chain(bytes.into_iter()) {
+      *h ^= u64::from(b);
+      *h = h.wrapping_mul(0x100000001b3);
+    }
+  }
+}
+
+/// The index snapshots depend on how the CURRENT source tree indexes the prefix: they are
+/// keyed by a hash of the indexing sources of the tree the harness was built against
+/// (VERIF_REPO, default /repo), so a changed or alternative tree never reuses them.
+fn cache_dir() -> PathBuf {
+  static KEY: OnceLock<String> = OnceLock::new();
+  let key = KEY.get_or_init(|| {
+    let repo = PathBuf::from(std::env::var("VERIF_REPO").unwrap_or_else(|_| "/repo".into()));
+    let mut h = 0xcbf29ce484222325u64;
+    for rel in ["src/index.rs", "src/index", "src/inscriptions.rs", "src/inscriptions", "src/runes.rs", "src/chain.rs", "src/settings.rs", "src/options.rs", "crates/ordinals/src"] {
+      hash_tree(&repo.join(rel), &mut h);
+    }
+    format!("src-{h:016x}")
+  });
+  let root = cache_root();
+  let d = root.join(key);
+  if !d.exists() {
+    // keep the two most recent other keys
+    let mut old: Vec<(std::time::SystemTime, PathBuf)> = std::fs::read_dir(&root)
+      .unwrap()
+      .filter_map(|e| e.ok())
+      .filter(|e| e.file_name().to_string_lossy().starts_with("src-") || e.file_name() == "v1")
+      .map(|e| (e.metadata().and_then(|m| m.modified()).unwrap_or(std::time::UNIX_EPOCH), e.path()))
+      .collect();
+    old.sort();
+    while old.len() > 2 {
+      let (_, p) = old.remove(0);
+      let _ = std::fs::remove_dir_all(p);
+    }
+  }
   std::fs::create_dir_all(&d).unwrap();
   d
 }
@@ -305,7 +384,7 @@ fn cache_dir() -> PathBuf {
 /// 2+j (j < N_SPLIT) holds a transaction splitting the coinbase of height 1+j into four outputs
 /// (0, 1, 546+j, rest); all other blocks are empty.  Built once and cached as raw blocks.
 fn load_prefix(core: &mockcore::Handle) {
-  let file = cache_dir().join("prefix.bin");
+  let file = cache_root().join("prefix-v2.bin");
   if let Ok(bytes) = std::fs::read(&file) {
     let mut pos = 0;
     while pos < bytes.len() {
@@ -328,6 +407,20 @@ fn load_prefix(core: &mockcore::Handle) {
         lock_time: LockTime::ZERO,
         input: vec![TxIn { previous_output: OutPoint { txid: coinbases[1 + j], vout: 0 }, script_sig: ScriptBuf::new(), sequence: Sequence::MAX, witness: Witness::new() }],
         output: split_values(j).iter().map(|v| TxOut { value: Amount::from_sat(*v), script_pubkey: p2wpkh() }).collect(),
+      });
+    }
+    if h >= REVEAL_H0 && h - REVEAL_H0 < N_REVEAL {
+      let k = h - REVEAL_H0;
+      txdata.push(Transaction {
+        version: Version(2),
+        lock_time: LockTime::ZERO,
+        input: vec![TxIn {
+          previous_output: OutPoint { txid: coinbases[N_SPLIT + 2 + k], vout: 0 },
+          script_sig: ScriptBuf::new(),
+          sequence: Sequence::MAX,
+          witness: ordkit::inscription_witness(b"text/plain", &[b'p', k as u8]),
+        }],
+        output: vec![TxOut { value: Amount::from_sat(SUBSIDY), script_pubkey: p2wpkh() }],
       });
     }
     coinbases.push(txdata[0].compute_txid());
@@ -356,11 +449,14 @@ fn signet() -> &'static Mutex<Signet> {
     let mut ids = HashMap::new();
     {
       let st = core.state();
-      for h in 1..(N_SPLIT + 2 + 40 + 2) {
+      for h in 1..(POOL_CB.end + 2) {
         let block = &st.blocks[&st.hashes[h]];
         ids.insert(100_000 + h as u64, block.txdata[0].compute_txid());
         if h >= 2 && h - 2 < N_SPLIT {
           ids.insert(1 + (h - 2) as u64, block.txdata[1].compute_txid());
+        }
+        if h >= REVEAL_H0 && h - REVEAL_H0 < N_REVEAL {
+          ids.insert(90 + (h - REVEAL_H0) as u64, block.txdata[1].compute_txid());
         }
       }
     }
@@ -453,6 +549,9 @@ fn run_config(core: &mockcore::Handle, base: Option<&Path>, chain_flag: &str, ci
   // cache, in the table (after a flush) or fetched
   flags.push("--commit-interval");
   flags.push(["1", "2", "5000"][(ci + salt) % 3]);
+  // 12 parallel requests is the default; with 1 or 2 a chunk of a batch has more than 10 requests
+  flags.push("--bitcoin-rpc-limit");
+  flags.push(["1", "12", "2"][(ci + salt / 3) % 3]);
   let _ = ord::index::verif_fetch::take();
   let index = ordkit::open_index(core, dir.path(), &flags);
   index.update().map_err(|e| format!("update failed under `{}`: {e}", CONFIGS[ci].0))?;
